@@ -40,6 +40,23 @@ class DegEval:
         elif k == "DeclStmt":
             for d in kids(n):
                 if d["kind"] == "VarDecl" and kids(d):
+                    ini = strip(kids(d)[0], casts=True)
+                    t_ = (d.get("type") or "").replace("const ", "").strip()
+                    if ini["kind"] == "InitListExpr" and t_.startswith("struct ") and "*" not in t_:
+                        # a record local built from values: each member carries the degree of its initialiser
+                        rec = self.m.records.get(t_[7:].strip()) or []
+                        for (fn_, ft_, fd_), v_ in zip(rec, kids(ini)):
+                            self.env[(d["id"], fn_)] = self.expr(v_)
+                        continue
+                    if ini["kind"] == "DeclRefExpr" and t_.startswith("struct ") and "*" not in t_:
+                        src = ini["ref"].get("id")
+                        copied = False
+                        for k_, v_ in list(self.env.items()):
+                            if isinstance(k_, tuple) and k_[0] == src:
+                                self.env[(d["id"], k_[1])] = v_
+                                copied = True
+                        if copied:
+                            continue
                     self.env[d["id"]] = self.expr(kids(d)[0])
         elif k == "IfStmt":
             ch = kids(n)
@@ -78,6 +95,9 @@ class DegEval:
             return None
         if k == "MemberExpr":
             nm = n.get("name")
+            b0 = strip(ch[0], casts=True) if ch else None
+            if b0 is not None and b0["kind"] == "DeclRefExpr" and (b0["ref"].get("id"), nm) in self.env:
+                return self.env[(b0["ref"]["id"], nm)]
             if nm in self.field_deg:
                 return self.field_deg[nm]
             return None
@@ -116,6 +136,11 @@ class DegEval:
                         r = self.sub(cur, r)
                 if l["kind"] == "DeclRefExpr" and l["ref"].get("kind") in ("VarDecl", "ParmVarDecl"):
                     self.env[l["ref"]["id"]] = r
+                    r0_ = strip(ch[1], casts=True)
+                    if op == "=" and r0_["kind"] == "DeclRefExpr":
+                        for k_, v_ in list(self.env.items()):
+                            if isinstance(k_, tuple) and k_[0] == r0_["ref"].get("id"):
+                                self.env[(l["ref"]["id"], k_[1])] = v_
                 elif l["kind"] == "MemberExpr":
                     self.stores.append((render(l), l.get("name"), r, n))
                 elif l["kind"] == "ArraySubscriptExpr":
